@@ -19,7 +19,7 @@ func init() {
 	core.Register(&core.Check{
 		ID:    "C14",
 		Level: "model_checking",
-		Rule: "for each of 10 body shapes (guarded yield then recur; recur then guarded yield; two yields; no recur; keyword arguments; body reading a reassigned outer variable; unguarded infinite; nil first yield; no declared parameters with \\ resp. \\1) the complete history tree of depth <=5 (thorough 6) over the operations " +
+		Rule: "for each of 12 body shapes (a yielded expression that would raise / would consume a shared source on the stop step; guarded yield then recur; recur then guarded yield; two yields; no recur; keyword arguments; body reading a reassigned outer variable; unguarded infinite; nil first yield; no declared parameters with \\ resp. \\1) the complete history tree of depth <=5 (thorough 6) over the operations " +
 			"{iK := gen.new(0|2), iK := iJ.new(1), iK := iJ (alias), iJ.next, iJ.A, iJ@{..}, iJ$(0)+ (thorough), lim := 1|5} on <=3 iterator variables; states = model states reached, transitions = operations; " +
 			"every path is one program on the real interpreter and every observation along it (value / StopIterErr / collected list) is compared with the model; A and chains are generated only where the model proves the iteration finite; " +
 			"non-trivial = path touching >=2 iterator objects or containing a chain/A; distinct = distinct operation sequence",
@@ -50,6 +50,9 @@ var shapes = []shape{
 	// no declared parameters: the state lives only in the implicit argument variables
 	{Name: "implicit-args", Gen: "gen := <{yield \\ if \\ < 3; recur(\\ + 1)}>"},
 	{Name: "implicit-numbered-args", Gen: "gen := <{yield \\1 if \\1 < 3; recur(\\1 + 1)}>"},
+	// the guard protects the yielded expression: on the stop step it would raise / would consume a shared source
+	{Name: "value-raises-at-stop", Gen: "gen := <{|i| yield 12 // (3 - i) if i < 3; recur(i + 1)}>"},
+	{Name: "value-consumes-shared-source", Gen: "src := <{|k| yield k; recur(k + 1)}>.new(100)\ngen := <{|i| yield src.next if i < 3; recur(i + 1)}>"},
 	{Name: "nil-first-yield", Gen: "gen := <{|i| yield [nil, i][i % 2] if i < 4; yield 99; recur(i + 1); 77}>"},
 }
 
@@ -74,10 +77,11 @@ type mstate struct {
 	shape int
 	vars  []*mit
 	lim   int
+	src   int // next value of the shared source (shape value-consumes-shared-source)
 }
 
 func (s *mstate) clone() *mstate {
-	n := &mstate{shape: s.shape, lim: s.lim}
+	n := &mstate{shape: s.shape, lim: s.lim, src: s.src}
 	seen := map[*mit]*mit{}
 	for _, v := range s.vars {
 		if c, ok := seen[v]; ok {
@@ -97,6 +101,21 @@ func (s *mstate) next(it *mit) (int, bool) {
 	case "yield-then-recur", "two-yields", "implicit-args", "implicit-numbered-args":
 		if it.i < 3 {
 			v := it.i
+			it.i++
+			return v, false
+		}
+		return 0, true
+	case "value-raises-at-stop":
+		if it.i < 3 {
+			v := 12 / (3 - it.i)
+			it.i++
+			return v, false
+		}
+		return 0, true
+	case "value-consumes-shared-source":
+		if it.i < 3 {
+			v := s.src
+			s.src++
 			it.i++
 			return v, false
 		}
@@ -243,7 +262,7 @@ func enabled(s *mstate, thorough bool) []op {
 	var ops []op
 	for j, v := range s.vars {
 		ops = append(ops, op{K: "next", J: j})
-		if _, fin := s.collect(v); fin {
+		if _, fin := s.clone().collect(v); fin {
 			ops = append(ops, op{K: "A", J: j}, op{K: "list", J: j})
 			if thorough {
 				ops = append(ops, op{K: "reduce", J: j})
@@ -265,7 +284,7 @@ func enabled(s *mstate, thorough bool) []op {
 	return ops
 }
 
-func initial(shape int) *mstate { return &mstate{shape: shape, lim: 3} }
+func initial(shape int) *mstate { return &mstate{shape: shape, lim: 3, src: 100} }
 
 // build returns the program and the expected rendering of its final array.
 func (t tcase) build() (string, string, bool) {
@@ -297,7 +316,7 @@ func (s *mstate) key() string {
 		}
 		fmt.Fprintf(&sb, "%d:%d/%d ", idx[v], v.i, v.step)
 	}
-	fmt.Fprintf(&sb, "lim%d", s.lim)
+	fmt.Fprintf(&sb, "lim%d src%d", s.lim, s.src)
 	return sb.String()
 }
 
